@@ -426,10 +426,18 @@ def tallyPasses (com : Committee LP) (votes : List Vote) (ext : LExt) (pid : Nat
     let yes := w (vs.filter (fun v => v.vt == .yes))
     let no := w (vs.filter (fun v => v.vt == .no))
     let total := w vs
-    decide ((com.quorum.mul (Dec.ofInt ext.supply)).m ≤ total * P) &&
+    -- "a passing tally (threshold ...) of votes cast": with no yes and no no weight at all there is no yes
+    -- share that could reach the threshold (the threshold is validated > 0)
+    decide ((com.quorum.mul (Dec.ofInt ext.supply)).m ≤ total * P) && decide (0 < yes + no) &&
       decide (((Dec.ofInt (yes + no)).mul com.threshold).m ≤ yes * P)
   else
     decide ((com.threshold.mul (Dec.ofInt com.members.length)).m ≤ (vs.length : Int) * P)
+
+/-- a token-committee tally in which no yes and no no weight was counted (everybody abstained / nobody voted) -/
+def emptyTally (com : Committee LP) (votes : List Vote) (ext : LExt) (pid : Nat) : Bool :=
+  let vs := votes.filter (fun v => v.pid == pid)
+  let w := fun (l : List Vote) => (l.map (fun v => ext.bals.getD v.voter 0)).foldl (· + ·) 0
+  com.token && w (vs.filter (fun v => v.vt == .yes)) + w (vs.filter (fun v => v.vt == .no)) == 0
 
 def lifePred (pre : LSt) (cast : List Vote) (op : List String) (cls : String) (props' : List (Proposal LC)) (votes' : List Vote)
     (ext' : LExt) (events : List (Nat × String)) : String :=
@@ -490,7 +498,11 @@ def lifePred (pre : LSt) (cast : List Vote) (op : List String) (cls : String) (p
                 | none => true
                 | some com => !(tallyPasses com pre.votes pre.ext pid)
             match badE with
-            | some (pid, _) => predfail "C17_enact_only_if_passed" s!"tally-not-passing pid={pid}"
+            | some (pid, _) =>
+              let noYesNo : Bool := (pre.proposals.find? (fun p => p.id == pid)).any fun p =>
+                (pre.committees.find? (fun c => c.id == p.cid)).any fun com => emptyTally com pre.votes pre.ext pid
+              if noYesNo then predfail "C17_enact_only_if_passed" s!"enacted-without-any-yes-or-no-vote pid={pid}"
+              else predfail "C17_enact_only_if_passed" s!"tally-not-passing pid={pid}"
             | none =>
             -- the same from the votes the harness itself cast last (its own log, not the vote store):
             -- enacted ⇒ passes, closed as failed at the deadline ⇒ does not pass
